@@ -880,14 +880,16 @@ theorem fragLoop_unc (unit : Nat) (hunit : (16384 * unit) % 8 = 0) :
 
 /-! ### size constraints of BIT STRING / OCTET STRING (16, 17) -/
 
-/-- size bounds the proof can handle: 0 ≤ lb ≤ ub; SIZE(lb..MAX) only with lb = 0 (the library writes length − lb there);
+/-- size bounds the proof can handle: 0 ≤ lb ≤ ub, not SIZE(0) (the library's `putBitString(bytes, 0)` indexes `bytes[0]` of an
+    empty slice when the writer is not octet aligned: a trap where X.691 encodes nothing — found by the synthetic-schema
+    correspondence run, harness/cmd/corr/apersyn.go); SIZE(lb..MAX) only with lb = 0 (the library writes length − lb there);
     a constrained length (ub < 64K) spans fewer than 16K values (the library's loop would fragment a constrained
     length of 16K or more, X.691 does not) -/
 def strOK' (lbP ubP : Option Int) : Bool :=
   match lbP, ubP with
   | none, _ => true
   | some l, none => l == 0
-  | some l, some u => decide (0 ≤ l) && decide (l ≤ u) && (decide (65535 < u) || decide (u - l < 16384))
+  | some l, some u => decide (0 < u) && decide (0 ≤ l) && decide (l ≤ u) && (decide (65535 < u) || decide (u - l < 16384))
 
 /-- the length is a constrained whole number (11.9.3.3) rather than a general length -/
 def isCon (ub : Option Nat) : Bool := match ub with | some u => decide (u < 65536) | none => false
@@ -920,7 +922,7 @@ theorem sizePreamble_fwd (len : Nat) (ext : Bool) (lbP ubP : Option Int) (pre : 
       exact ⟨0, none, by simp, Or.inr (Or.inr ⟨rfl, rfl, by simp, rfl⟩)⟩
     | some u =>
       simp only [strOK', Bool.and_eq_true, Bool.or_eq_true, decide_eq_true_eq] at hok
-      obtain ⟨⟨hl0, hlu⟩, hspan⟩ := hok
+      obtain ⟨⟨⟨_hu0, hl0⟩, hlu⟩, hspan⟩ := hok
       dsimp only at h ⊢
       have hbad : ¬ (l < 0 ∨ u < l) := by omega
       simp only [hbad, if_false]
@@ -1017,6 +1019,8 @@ theorem octet_string_fwd (pos : Nat) (bytes : Bytes) (ext : Bool) (lbP ubP : Opt
             simp only [g1, g2, if_false]
             rw [← h, pad_eq]
           · rename_i hle
+            split at h
+            · simp [Aper.panic] at h
             simp only [Except.ok.injEq] at h
             by_cases g1 : lbS = 0
             · simp only [g1, if_true]
@@ -1030,7 +1034,7 @@ theorem octet_string_fwd (pos : Nat) (bytes : Bytes) (ext : Bool) (lbP ubP : Opt
         · omega
     · simp only [hsr, if_false] at h
       split at h
-      · simp [err] at h
+      · split at h <;> simp [err, Aper.panic] at h
       · rename_i hge
         obtain ⟨lbS, ubS, hsc, hcase⟩ := sizePreamble_fwd _ _ _ _ _ _ _ _ hok hsp (fun h1 => absurd h1 hsr) (fun _ => by omega)
         rw [hsc]
@@ -1119,6 +1123,8 @@ theorem bit_string_fwd (pos : Nat) (bytes : Bytes) (len : Nat) (ext : Bool) (lbP
               simp only [g2, if_false]
               rw [← h, pad_eq]
             · rename_i hle
+              split at h
+              · simp [Aper.panic] at h
               simp only [Except.ok.injEq] at h
               have g2 : lbS ≤ 16 := by omega
               simp only [g2, if_true]
@@ -1127,7 +1133,7 @@ theorem bit_string_fwd (pos : Nat) (bytes : Bytes) (len : Nat) (ext : Bool) (lbP
           · omega
       · simp only [hsr, if_false] at h
         split at h
-        · simp [err] at h
+        · split at h <;> simp [err, Aper.panic] at h
         · rename_i hge
           obtain ⟨lbS, ubS, hsc, hcase⟩ := sizePreamble_fwd _ _ _ _ _ _ _ _ hok hsp (fun h1 => absurd h1 hsr) (fun _ => by omega)
           rw [hsc]
